@@ -28,6 +28,7 @@ class AnyIOStream(AsyncNetworkStream):
             anyio.BrokenResourceError: ReadError,
             anyio.ClosedResourceError: ReadError,
             anyio.EndOfStream: ReadError,
+            ssl.SSLError: ReadError,
         }
         with map_exceptions(exc_map):
             with anyio.fail_after(timeout):
